@@ -3,7 +3,7 @@
     Storage::empty; the theorems below are about that save on every well-formed state.  The specification
     object is [valid_pdf] (Storage/Valid.v), an independent reading of the bytes. *)
 From PdfV Require Import Base.Prelude Storage.Prim Storage.Model Storage.Proofs Storage.Syntax Storage.Run Storage.Tables Storage.Valid.
-From PdfV Require Import Storage.Builder Storage.Reload Storage.BuilderProofs.
+From PdfV Require Import Storage.Builder Storage.Reload Storage.BuilderProofs Storage.LoadProofs.
 From PdfV Require Syn.Serialize.
 
 (** Every in-use entry of a saved object points (relative to the header) at its `id gen obj` header. *)
@@ -80,6 +80,14 @@ Theorem C10_reload : forall ps info s' tr',
     end.
 Proof. exact build_reload. Qed.
 Print Assumptions C10_reload.
+
+(** the produced bytes open: FileOptions::load (model) succeeds on every built file and the loaded state is a reload in
+    the sense of C10_reload — so C10_reload applies to what load returns, with no assumption about the table *)
+Theorem C10_load : forall read_classic ps info s' tr' c,
+  build ps info = Ok (s', tr', None) -> lenN ps < 300000 -> lenN (backend s') < 2 ^ 64 ->
+  exists s3 td, load parse_obj read_classic (backend s') c = Ok (s3, td) /\ reloaded s' s3.
+Proof. exact build_load. Qed.
+Print Assumptions C10_load.
 
 (** the state the builder hands to save is well-formed (so every C09 theorem applies to the save of a build) and
     contains exactly the objects of the document *)
